@@ -156,6 +156,10 @@ func scenario(name string, ops []op, bounds []int) *vexp.Scenario {
 					name = "o1" // same actor name as /p/o1, different path
 				}
 				s := &vsys.Script{Name: name}
+				if who == "o2" {
+					// this owner has a child of its own: its termination / restart completes only when the child's notice arrives
+					s.Children = []*vsys.Script{{Name: "kid"}}
+				}
 				rec := record(pathOf(who))
 				name = who
 				s.OnMsg = func(a *vsys.Act, ctx vivid.ActorContext, m vsys.Msg) {
@@ -457,6 +461,10 @@ func build(tier string) []*vexp.Scenario {
 	// jobs registered by the death sequence itself (OnKill handler) die with the incarnation too
 	add("sched-in-onkill/kill", op{0, "o1", "loop", "a", s, "self"}, op{s + half, "o1", "kill-sched", "", 0, "self"})
 	add("sched-in-onkill/restart", op{0, "o1", "loop", "a", s, "self"}, op{s + half, "o1", "restart-sched", "", 0, "self"})
+	// an owner that has a child (its own death / restart is completed by the child's termination notice)
+	for _, term := range []string{"kill", "restart", "clear"} {
+		add("owner-with-child/loop+once+"+term, op{0, "o2", "loop", "a", s, "self"}, op{0, "o2", "once", "b", 3 * s, "r"}, op{s + half, "o2", term, "", 0, "self"})
+	}
 	// jobs scheduled with a full option struct and no reference
 	add("no-reference/once", op{0, "o1", "once", "", s, "self"})
 	add("no-reference/loop+kill", op{0, "o1", "loop", "", s, "r"}, op{2*s + half, "o1", "kill", "", 0, "r"})
